@@ -1,6 +1,6 @@
 //! infer engine (C10): shape inference never contradicts execution.
 //!
-//! `vh-ops infer --out trace.ndjson [--per N] [--chains N] [--ops A,B] [--only-case '<json>'] [--list]`
+//! `vh-ops infer --out trace.ndjson [--per N] [--chains N] [--fold-chains N] [--ops A,B] [--only-case '<json>'] [--list]`
 //!
 //! Two drivers feed one record format (one `case` + one `ret` record per OPERATOR APPLICATION):
 //!  * single: a single-operator ONNX model (seeded shapes / attributes / integer data) is loaded with
@@ -636,6 +636,7 @@ pub fn main() {
     let out = arg("--out").unwrap_or_else(|| "-".into());
     let per = arg_usize("--per", 20);
     let nchains = arg_usize("--chains", 50);
+    let nfold = arg_usize("--fold-chains", 50);
     let only_ops: Option<Vec<String>> = arg("--ops").map(|s| s.split(',').map(|x| x.to_string()).collect());
     let mut rng = Rng::from_env();
     if std::env::args().any(|a| a == "--list") {
@@ -676,7 +677,12 @@ pub fn main() {
             let mut r = Rng::new(rng.0 ^ fxhash("chain"));
             for i in 0..nchains {
                 em.cur = i % shards;
-                run_chain(&mut em, &mut r, None);
+                run_chain(&mut em, &mut r, None, "chain");
+            }
+            let mut r = Rng::new(rng.0 ^ fxhash("fold"));
+            for i in 0..nfold {
+                em.cur = i % shards;
+                run_chain(&mut em, &mut r, None, "fold");
             }
         }
     });
@@ -697,7 +703,7 @@ fn fxhash(s: &str) -> u64 {
 /// Re-run one recorded case (the `case` record of a trace) with the recorded abstraction.
 fn replay_case(em: &mut Emit, cj: &J, rng: &mut Rng) {
     if cj["mode"].as_str() == Some("chain") {
-        run_chain(em, rng, Some(cj));
+        run_chain(em, rng, Some(cj), "chain");
         return;
     }
     let rp = &cj["replay"];
